@@ -5,6 +5,7 @@ Driver of the robots model.
 
   robots match <ua> <target> <rulesets>            -> T | F
   robots gate  <ua> <items> <events>               -> ok <log> | reject <k> <reason>
+  robots nofollow <T|F robots option> <elements>   -> link contexts kept, in document order (`~` none)
 
 rulesets: `~` or `|`-separated `<names>:<rules>`; names `,`-separated hex lists;
 rules `,`-separated `A=<hex list>` / `D=<hex list>` (`_` when a rule set has no rules).
@@ -86,7 +87,35 @@ def gateLoop (ua : Str) : St → Nat → List String → String
             | none => "unknown_item"
         s!"reject {k} {why}"
 
+def decBool? (s : String) : Option Bool :=
+  if s == "T" then some true else if s == "F" then some false else none
+
+def decCtx? (s : String) : Option LinkCtx :=
+  match s.splitOn "," with
+  | [u, i, l] =>
+    match u.toNat?, decBool? i, decBool? l with
+    | some u, some i, some l => some ⟨u, i, l⟩
+    | _, _, _ => none
+  | _ => none
+
+/-- element: `m` (meta robots nofollow) or `e`, then `:` and `|`-separated `url,inline,linked` (or `_`) -/
+def decElem? (s : String) : Option Elem :=
+  match s.splitOn ":" with
+  | [k, ls] =>
+    match (if ls == "_" then some [] else (ls.splitOn "|").mapM decCtx?) with
+    | some ls => if k == "m" then some ⟨true, ls⟩ else if k == "e" then some ⟨false, ls⟩ else none
+    | none => none
+  | _ => none
+
+def encCtx (c : LinkCtx) : String := s!"{c.url},{encBool c.inline},{encBool c.linked}"
+
 def handle : List String → String
+  | ["nofollow", robots, elems] =>
+    match decBool? robots, (if elems == "~" then some [] else (elems.splitOn ";").mapM decElem?) with
+    | some r, some es =>
+      let out := scrapeLinks r es
+      if out.isEmpty then "~" else "|".intercalate (out.map encCtx)
+    | _, _ => "bad-arg"
   | ["match", ua, target, rsets] =>
     match decList? ua, decList? target, decRuleSets? rsets with
     | some ua, some t, some rs => encBool (isAllowed rs ua t)
